@@ -81,6 +81,10 @@ class Obligation(object):
             paths = explore(ctx.model, thunk, opts)
         except Undecidable as e:
             return ctx.undecided(self.rule, fi.qualname, construct, 'outside the fragment: %s' % e, where=where(fi))
+        except Exception as e:
+            if getattr(e, 'verdict_violation', False):
+                return ctx.record(self.rule, fi.qualname, construct, False, detail=str(e), where=where(fi), sample=sample)
+            raise
         ctx.extra['label_paths_explored'] = ctx.extra.get('label_paths_explored', 0) + len(paths)
         verdict = True
         details = []
